@@ -10,3 +10,6 @@ func verifAdoptConn(amfIP, stgIP string, amfPort, stgPort int) (*sctp.SCTPConn, 
 
 // VerifEmit is a no-op without the verif build tag.
 func VerifEmit(ev map[string]interface{}) {}
+
+// VerifInts is unused without the verif build tag.
+func VerifInts(b []byte) []int { return nil }
